@@ -91,7 +91,7 @@ theorem core_net (t : TRO) (n : Net) (m : Mem) :
 /-- the controller's own finalizer comes off only in deletion, in a reconcile whose `FinalisingTrafficRouting` reported done -/
 theorem core_finalizer (t : TRO) (n : Net) (m : Mem) (h1 : t.hasFinalizer = true) (h2 : (trCore t n m).t.hasFinalizer = false) :
     t.deleting = true ∧ (trCore t n m).finalised = true ∧ (finalisingTrafficRouting (tctx t) n m).done = true ∧
-    (trCore t n m).net = (finalisingTrafficRouting (tctx t) n m).net := by
+    (trCore t n m).net = (finalisingTrafficRouting (tctx t) n m).net ∧ (trCore t n m).requeue = false := by
   obtain ⟨del, hf, hs, ph, wt, gr, hr⟩ := t
   simp only at h1; subst h1
   have hc : ∀ hf' ph', tctx ⟨del, hf', hs, ph', wt, gr, hr⟩ = tctx ⟨del, true, hs, ph, wt, gr, hr⟩ := fun _ _ => rfl
@@ -591,7 +591,8 @@ theorem held_not_restored (s s' : JS) (h : step s .tr = some s') : heldNotRestor
     finalizer only from an object in deletion and only in a reconcile in which `FinalisingTrafficRouting` reported done,
     so that no canary route is left.  The code's condition says nothing about progressing finalizers: with holders left
     the object stays visible (`held_stays_visible`) until the last of them lets go. -/
-theorem tr_finalizer_guard (s s' : JS) (h : step s .tr = some s') : trFinalizerGuard s s' = true := by
+theorem tr_finalizer_guard (s s' : JS) (h : step s .tr = some s') :
+    trFinalizerGuard s s' (match s.tr with | some t => (trReconcile t s.net s.mem).requeue | none => false) = true := by
   unfold trFinalizerGuard
   cases htr : s.tr with
   | none => rfl
@@ -599,10 +600,11 @@ theorem tr_finalizer_guard (s s' : JS) (h : step s .tr = some s') : trFinalizerG
     rw [step_tr s t htr] at h; cases h
     dsimp only
     have key : (trCore t s.net s.mem).t.hasFinalizer = false → t.hasFinalizer = true →
-        (t.deleting && ((trCore t s.net s.mem).net.canaryIng.isNone || !t.hasRef)) = true := by
+        (t.deleting && ((trCore t s.net s.mem).net.canaryIng.isNone || !t.hasRef) && !(trReconcile t s.net s.mem).requeue) = true := by
       intro hoff' hf
-      obtain ⟨hd, _, hdone, hnet⟩ := core_finalizer t s.net s.mem hf hoff'
-      rw [hd, hnet]
+      have hrq' : (trReconcile t s.net s.mem).requeue = (trCore t s.net s.mem).requeue := rfl
+      obtain ⟨hd, _, hdone, hnet, hrq⟩ := core_finalizer t s.net s.mem hf hoff'
+      rw [hd, hnet, hrq', hrq]
       cases href : t.hasRef with
       | false => simp
       | true =>
@@ -618,6 +620,27 @@ theorem tr_finalizer_guard (s s' : JS) (h : step s .tr = some s') : trFinalizerG
         cases hoff : (trCore t s.net s.mem).t.hasFinalizer with
         | true => simp [hoff]
         | false => simpa [hoff] using key hoff hf
+
+/-- a TrafficRouting reconcile enters phase Finalizing only when no progressing finalizer is left (every joint state) -/
+theorem finalizing_entry_unheld (s s' : JS) (h : step s .tr = some s') : finalizingEntryUnheld s.tr s'.tr = true := by
+  unfold finalizingEntryUnheld
+  cases htr : s.tr with
+  | none => rfl
+  | some t =>
+    rw [step_tr s t htr] at h; cases h
+    dsimp only
+    cases hst : stored (trCore t s.net s.mem).t with
+    | none => rfl
+    | some t' =>
+      have := stored_some _ _ hst; subst this
+      dsimp only
+      cases hph : ((trCore t s.net s.mem).t.phase == TRSM.Phase.finalizing && t.phase != TRSM.Phase.finalizing) with
+      | false => rfl
+      | true =>
+        simp only [Bool.and_eq_true, beq_iff_eq, bne_iff_ne, ne_eq] at hph
+        rcases (core_phase t s.net s.mem).1 hph.1 with h1 | ⟨h1, h2⟩
+        · exact absurd h1 hph.2
+        · simp [h1, h2]
 
 /-- a TrafficRouting reconcile never touches the progressing finalizers -/
 theorem tr_keeps_holders (s s' : JS) (h : step s .tr = some s') : trKeepsHolders s.tr s'.tr = true := by
